@@ -314,6 +314,18 @@ func genChain(t *rapid.T) ChainCase {
 		}
 		return ChainOp{Op: op, Try: rapid.IntRange(0, 6).Draw(t, "try") == 0}
 	}), 1, 8).Draw(t, "ops")
+	// sibling derivations from one base (and appends, which grow every array) are where aliasing between
+	// results shows; make them more frequent than independent draws would
+	for i := 1; i < len(c.Ops); i++ {
+		switch rapid.IntRange(0, 5).Draw(t, "bias") {
+		case 0:
+			c.Ops[i].Op.A = c.Ops[i-1].Op.A
+		case 1:
+			c.Ops[i].Op.K, c.Ops[i].Op.A = "append", c.Ops[i-1].Op.A
+		case 2:
+			c.Ops[i].Op.K = "append"
+		}
+	}
 	return c
 }
 
@@ -369,6 +381,13 @@ func runChain(c ChainCase, o *vh.Obs) *vh.Failure {
 			if r.AttributeLength() <= 4000 {
 				pool = append(pool, r)
 			}
+		}
+	}
+	// every mesh obtained during the chain must still be well-formed at the end (a later operation
+	// must not turn an earlier result into one whose accessors read out of range)
+	for i, m := range pool {
+		if err := oracle.WF(m); err != nil {
+			return vh.Failf("earlier-result-became-malformed", "mesh %d of the chain was well-formed when returned but is not at the end of the chain: %v", i, err)
 		}
 	}
 	if applied >= 2 {
